@@ -5,10 +5,12 @@ Import ListNotations.
 Local Open Scope nat_scope.
 
 (* never imported (no record created, no rule fired): symlinks, non-regular files, dot-files, transfer artefacts,
-   paths through a symlinked directory, locked files, paths the detector rejects, non-canonical acquisition names *)
+   paths through a symlinked directory, locked files, paths the detector rejects, non-canonical acquisition names,
+   acquisition names that leave no valid file name *)
 Theorem C04_never_imported : forall f,
   is_symlink f = true \/ is_regular f = false \/ dot_name f = true \/ in_temp_dir f = true \/ through_symlink f = true \/
-  locked f = true \/ detected f = None \/ (exists a, detected f = Some a /\ invalid_import_path a = true) ->
+  locked f = true \/ detected f = None \/ (exists a, detected f = Some a /\ invalid_import_path a = true) \/
+  (exists a, detected f = Some a /\ file_name (ipath f) a = None) ->
   fires_rules (import_decision f) = false /\ creates_records (import_decision f) = false /\ (forall a b c, import_decision f <> OImported a b c).
 Proof. exact never_imported. Qed.
 Print Assumptions C04_never_imported.
@@ -23,6 +25,16 @@ Theorem C04_imported : forall f a b c, import_decision f = OImported a b c ->
   (copy_row f = None -> c = (HY, WY)) /\ (forall r, copy_row f = Some r -> c = revive r) /\ tracked (Some c) = true.
 Proof. exact imported_copy. Qed.
 Print Assumptions C04_imported.
+(* the names it registers: the acquisition the detector named and the file name relative to it — the imported path split in two,
+   each part a canonical name; an answer that is not a proper parent of the path (the path itself, a sibling) leaves no name: refused *)
+Theorem C04_imported_names : forall f a b c, import_decision f = OImported a b c ->
+  exists acq n, detected f = Some acq /\ invalid_import_path acq = false /\ file_name (ipath f) acq = Some n /\
+                invalid_import_path n = false /\ ipath f = acq ++ [47%N] ++ n.
+Proof. exact imported_names. Qed.
+Print Assumptions C04_imported_names.
+Theorem C04_path_is_no_acquisition : forall p, file_name p p = None.
+Proof. exact file_name_not_self. Qed.
+Print Assumptions C04_path_is_no_acquisition.
 (* with registration disabled no acquisition or file record is created and only already-registered files gain a copy *)
 Theorem C04_no_registration : forall f a b c, register f = false -> import_decision f = OImported a b c ->
   a = false /\ b = false /\ acq_known f = true /\ file_known f = true.
